@@ -8,6 +8,8 @@ import (
 	"encoding/base64"
 	"encoding/hex"
 	"fmt"
+	"github.com/emitter-io/emitter/internal/provider/contract"
+	"github.com/emitter-io/emitter/internal/provider/usage"
 	"strings"
 	"testing"
 	"time"
@@ -524,5 +526,68 @@ func TestConcurrentCipher(t *testing.T) {
 		default:
 		}
 		vkit.Record(t.Name(), c, vkit.OK(true, "concurrent-cipher"))
+	}
+}
+
+// TestGeneratedLicenses: licenses produced by the repository's own generators (NewV1/NewV2/NewV3 and license.New, which
+// the `emitter license new` command prints) parse back to the same contract, signature, master index and an equivalent
+// cipher; the master key generated along with a license is a valid master key of that license.
+func TestGeneratedLicenses(t *testing.T) {
+	n := vkit.N(300)
+	for i := 0; i < n; i++ {
+		gens := []license.License{license.NewV1(), license.NewV2(), license.NewV3()}
+		for v, l := range gens {
+			c := map[string]interface{}{"generator": fmt.Sprintf("NewV%d", v+1), "i": i}
+			fail := func(msg string) {
+				vkit.ReportFailure(t.Name(), c, msg, "")
+				t.Fatal(msg)
+			}
+			p, err := license.Parse(l.String())
+			if err != nil {
+				fail(fmt.Sprintf("a license generated by NewV%d does not parse: %v (%q)", v+1, err, l.String()))
+			}
+			if p.Contract() != l.Contract() || p.Signature() != l.Signature() || p.Master() != l.Master() {
+				fail(fmt.Sprintf("NewV%d license parses back to contract/signature/master %d/%d/%d, generated %d/%d/%d", v+1, p.Contract(), p.Signature(), p.Master(), l.Contract(), l.Signature(), l.Master()))
+			}
+			c1, err1 := l.Cipher()
+			c2, err2 := p.Cipher()
+			if err1 != nil || err2 != nil {
+				fail(fmt.Sprintf("cipher of a generated v%d license: %v / %v", v+1, err1, err2))
+			}
+			mk, err := l.NewMasterKey(uint16(l.Master()))
+			if err != nil {
+				fail("NewMasterKey: " + err.Error())
+			}
+			s1, e1 := c1.EncryptKey(mk)
+			if e1 != nil || len(s1) != 32 {
+				fail(fmt.Sprintf("master key of a generated v%d license does not encrypt: %v", v+1, e1))
+			}
+			back, e2 := c2.DecryptKey([]byte(s1))
+			if e2 != nil || !bytes.Equal(back, mk) {
+				fail(fmt.Sprintf("v%d: the cipher of the parsed license does not decrypt what the cipher of the generated license encrypted (%v)", v+1, e2))
+			}
+			ct, ok := contract.NewSingleContractProvider(p, usage.NewNoop()).Get(p.Contract())
+			if !ok || !ct.Validate(back) || !back.IsMaster() {
+				fail(fmt.Sprintf("v%d: the generated master key is not a valid master key of the license it was generated with", v+1))
+			}
+			vkit.Record(t.Name(), c, vkit.OK(true, fmt.Sprintf("generated-v%d", v+1)))
+		}
+		// the pair printed by `emitter license new`
+		ls, ms := license.New()
+		c := map[string]interface{}{"generator": "license.New", "i": i}
+		p, err := license.Parse(ls)
+		if err != nil {
+			vkit.ReportFailure(t.Name(), c, "license.New() returns a license that does not parse: "+err.Error(), "")
+			t.Fatal(err)
+		}
+		cp, _ := p.Cipher()
+		k, err := cp.DecryptKey([]byte(ms))
+		ct, ok := contract.NewSingleContractProvider(p, usage.NewNoop()).Get(p.Contract())
+		if err != nil || !ok || !ct.Validate(k) || !k.IsMaster() || k.IsExpired() {
+			msg := fmt.Sprintf("license.New() returns a master key that is not a valid master key of the license returned with it (decrypt error %v)", err)
+			vkit.ReportFailure(t.Name(), c, msg, "")
+			t.Fatal(msg)
+		}
+		vkit.Record(t.Name(), c, vkit.OK(true, "generated-pair"))
 	}
 }
